@@ -164,3 +164,64 @@ def _register():
 
 
 _register()
+
+
+# ---------------------------------------------------------------------------------------------- the other entry points
+def entry_points(it):
+    """Network.add_reaction / allowed_species / required_species setters / where_species: whenever the network has element tables
+    (a list of elements OR a list of pseudo-elements), BOTH of its tables are installed - each with the network's own list, the empty
+    one too - before any species name is parsed (an empty list must replace what another network left behind)."""
+    from naunet.network import Network, supported_reaction_class
+    ctx = it.ctx
+    which = it.choose(4, "entry")
+    tables = [(["H", "M"], []), ([], ["CR"]), (["H"], ["CR", "M"])][it.choose(3, "tables")]
+    E, PE = tables
+    ctx.log, ctx.fmt, ctx.rclass = [], "kida", supported_reaction_class["kida"]
+    ctx.lines = None
+    net = Network.__new__(Network)
+    net._known_elements, net._known_pseudo_elements = list(E), list(PE)
+    net._species_kwargs = {}
+    net.reaction_list, net._skipped_reactions = [], []
+    from pyvc import setmodel
+    net._reactants, net._products = setmodel.empty("Species"), setmodel.empty("Species")
+    net._allowed_species, net._required_species = [], []
+    name = ["add_reaction", "allowed_species.setter", "required_species.setter", "where_species"][which]
+    PP = ("C17", "C04", "C07", "C14")
+    parsed = []
+    ctx.call_contracts["naunet.species.Species"] = lambda ip, a, k: (parsed.append(len(ctx.log)), SObj("Species", z3.IntVal(len(parsed))))[1]
+    ctx.call_contracts["naunet.network.Network._add_reaction"] = lambda ip, a, k: (parsed.append(len(ctx.log)), (set(), set(), None))[1]
+    try:
+        if which == 0:
+            it.call_function(Network.add_reaction, [net, ("some kida line", "kida")], {})
+        elif which == 1:
+            it.call_function(Network.allowed_species.fset, [net, ["H"]], {})
+        elif which == 2:
+            it.call_function(Network.required_species.fset, [net, ["H"]], {})
+        else:
+            try:
+                it.call_function(Network.where_species, [net, "H"], {})
+            except Unsupported:
+                pass
+    except PyRaise as e:
+        it.fail(f"entry/{name}/no-exception", PP, f"{type(e.exc).__name__}: {e.exc}")
+        return
+    first = min(parsed) if parsed else len(ctx.log)
+    before = ctx.log[:first]
+    ok = ("set_known_elements", E) in before and ("set_known_pseudoelements", PE) in before
+    if ok:
+        it.prove(z3.BoolVal(True), f"entry/{name}/both-tables-installed-before-names-are-parsed", PP)
+    else:
+        it.fail(f"entry/{name}/both-tables-installed-before-names-are-parsed", PP,
+                f"network tables elements={E} pseudo={PE}; calls before the first name is parsed: {before!r}")
+    if not parsed:
+        it.fail(f"entry/{name}/reaches-the-parser", PP, "no species name was parsed (contract harness out of date)")
+
+
+def _register2():
+    from pyvc.units import Unit, register
+    from naunet.network import Network
+    register(Unit("network_entry_points", __name__, lambda props=(): FileCtx(props), entry_points,
+                  functions=[Network.add_reaction, Network.allowed_species.fset, Network.required_species.fset, Network.where_species], props=("C17", "C04", "C07", "C14")))
+
+
+_register2()
